@@ -39,11 +39,13 @@ def arrays_for(case, dtype=np.float64):
     return out
 
 # ----------------------------------------------------------------------------- library side
+COPY = True      # C11 sets this to False to hand views straight to the library
+
 def _mk(sg, a, rg):
-    return sg.Tensor(np.array(a, copy=True), requires_grad=bool(rg) and np.asarray(a).dtype.kind == "f")
+    return sg.Tensor(np.array(a, copy=True) if COPY else a, requires_grad=bool(rg) and np.asarray(a).dtype.kind == "f")
 
 def _param(sg, nn, a, rg):
-    p = nn.Parameter(sg.Tensor(np.array(a, copy=True), requires_grad=True))
+    p = nn.Parameter(sg.Tensor(np.array(a, copy=True) if COPY else a, requires_grad=True))
     if not rg: p.requires_grad = False
     return p
 
